@@ -12,11 +12,11 @@ ASSUMPTIONS = ["idealised MAC for 'old-key packets are rejected' (verdicts are c
 
 
 def scenario(rng, k, tier):
-    wildcard = rng.random() < 0.4 and k % 4 != 1
+    wildcard = rng.random() < 0.4 and k % 4 not in (1, 2)
     ssrc = rng.randrange(2, 1 << 32)
     other = ssrc ^ 0x55
     use_mki = rng.random() < 0.3
-    def mkpol(ssrc_type, s, valid=True):
+    def mkpol(ssrc_type, s, valid=True, bad_kind=None):
         keys = None
         msz = 0
         if use_mki:
@@ -26,7 +26,7 @@ def scenario(rng, k, tier):
         if use_mki:
             p.keys = keys; p.use_mki = True; p.mki_size = msz; p.use_key_field = False
         if not valid:
-            w = rng.randrange(4)
+            w = rng.randrange(4) if bad_kind is None else bad_kind
             if w == 0: p.window = rng.choice([1, 10, 63, 32768])
             elif w == 1: p.rtp = cp(keylen=31)
             elif w == 2: p.rtp = cp(auth=2)
@@ -67,11 +67,16 @@ def scenario(rng, k, tier):
     L.append(f"# hold {old_line:x}")
     for rnd in range(rng.choice([1, 2, 3])):
         valid = rng.random() < 0.55
+        bad_kind = None
+        if k % 4 == 2 and rnd == 0:
+            # an explicit stream, a policy that passes validation and allocation and is refused when the stream is initialised
+            # (window size): the stream keeps working with its old keys
+            valid, bad_kind = False, 0
         if wildcard:
             ns = mkpol(SSRC_ANY_OUT, 0, valid); nr = mkpol(SSRC_ANY_IN, 0, valid); nr.keys = ns.keys
             nr.window, nr.rtp, nr.rtcp = ns.window, ns.rtp, ns.rtcp
         else:
-            ns = mkpol(SSRC_SPECIFIC, ssrc, valid); nr = ns
+            ns = mkpol(SSRC_SPECIFIC, ssrc, valid, bad_kind); nr = ns
         L += [ns.line(4), nr.line(5)]
         L.append(f"peek 1 0 {H(ssrc)}"); L.append(f"peek 2 0 {H(ssrc)}")
         upd = "update" if rng.random() < 0.5 else "stream_update"
